@@ -178,7 +178,9 @@ def history_case22(rng):
                           [15 | (sess << 4), 255, 255, 255, 255, 255, 255, 255, rng.choice([1, 2, 3]), 0, 208, 0], 0)
             continue
         if rng.random() < 0.3:
-            sc.send(i, 0, rng.choice([254, 255]), rng.randrange(256), 6, rand_payload(rng, rng.choice([61, 130, 200])))
+            # PDU2 broadcasts and PDU1 PGNs sent to the global address (both must come from the broadcast pool)
+            pf, ps = rng.choice([(254, rng.randrange(256)), (255, rng.randrange(256)), (100, 255), (239, 255)])
+            sc.send(i, 0, pf, ps, 6, rand_payload(rng, rng.choice([61, 130, 200])))
         else:
             sc.send(i, 0, 208, sc.addrs[1 - i], 6, rand_payload(rng, rng.choice([61, 120, 130, 300])))
     drop_from.clear(); lose_k.clear()
